@@ -124,12 +124,18 @@ def judge_batched(pid, module, recs, cfg, per_jvm=4000, heap="1500m", timeout=24
     from concurrent.futures import ThreadPoolExecutor
     from harness.common import workdir, write_ndjson, NPROC
     wd = workdir(pid, "judge_" + module)
-    parts = [recs[k:k + per_jvm] for k in range(0, len(recs), per_jvm)]
+    # shards of equal cost: a multiple of NPROC shards (whole waves), records dealt round-robin (neighbouring records are
+    # alike: a slice of written-literal or extreme-magnitude cases costs several times the average)
+    nsh = max(1, -(-len(recs) // per_jvm))
+    if nsh > 1:
+        nsh = -(-nsh // NPROC) * NPROC
+    parts = [p for p in (recs[k::nsh] for k in range(nsh)) if p]
 
     def one(k):
         path = os.path.join(wd, "obs_%d.ndjson" % k)
         write_ndjson(path, parts[k])
-        r = run_tlc(pid, module, cfg, env={"OBS_FILE": path}, workers=1, timeout=timeout, tag="judge_%s_%d" % (module, k), heap=heap)
+        r = run_tlc(pid, module, cfg, env={"OBS_FILE": path, "JAVA_TOOL_OPTIONS": "-XX:CICompilerCount=2 -XX:ParallelGCThreads=2"},
+                    workers=1, timeout=timeout, tag="judge_%s_%d" % (module, k), heap=heap)
         if r.errors or r.rc != 0:
             raise Machinery("judge %s shard %d failed rc=%s:\n%s" % (module, k, r.rc, r.stdout[-3000:]))
         os.unlink(path)
